@@ -15,7 +15,10 @@ static const char *const XML_TOKENS[] = {"&#;", "&#0;", "&#x0;", "&#x;", "&#xFFF
     "FE", "ff:fe", "1.", ".5", "1e", "-", "+", "<PLUS-INFINITY/>", "<MINUS-INFINITY/>", "<NOT-A-NUMBER/>", "-0", "1.2.840.113549", "0.40", "2.999999999999999999999", "  \n\t", "0x1F", "'0101'B"};
 struct BinTok { const char *p; size_t n; };
 #define BT(s) {s, sizeof(s) - 1}
-static const BinTok BIN_TOKENS[] = {BT("\x00\x00"), BT("\x80"), BT("\x1f\xff\xff\xff\xff\x7f"), BT("\x9f\x81\x00"), BT("\xbf\x1f"), BT("\x24\x80"), BT("\x23\x80\x03\x01\x08"), BT("\x03\x01\x08"), BT("\x03\x00"), BT("\x02\x00"), BT("\x0a\x00"), BT("\x01\x00"), BT("\x05\x01\x00"), BT("\x09\x01\x40"), BT("\x09\x01\x41"), BT("\x09\x01\x42"), BT("\x09\x03\x03\x31\x2c"), BT("\x09\x02\x83\x00"), BT("\x09\x02\x80\x80"), BT("\x06\x01\x80"), BT("\x06\x02\x2a\x86"), BT("\x0d\x01\xff"), BT("\x30\x80"), BT("\x31\x80"), BT("\xa0\x80"), BT("\x04\x81\x00"), BT("\x04\x84\x00\x00\x00\x01\x41"), BT("\x81\x01"), BT("\x88\x7f\xff\xff\xff\xff\xff\xff\xff"), BT("\xc1"), BT("\xc4"), BT("\xbf\xff"), BT("\x40"), BT("\x3f")};
+static const BinTok BIN_TOKENS[] = {BT("\x00\x00"), BT("\x80"), BT("\x1f\xff\xff\xff\xff\x7f"), BT("\x9f\x81\x00"), BT("\xbf\x1f"), BT("\x24\x80"), BT("\x23\x80\x03\x01\x08"), BT("\x03\x01\x08"), BT("\x03\x00"), BT("\x02\x00"), BT("\x0a\x00"), BT("\x01\x00"), BT("\x05\x01\x00"), BT("\x09\x01\x40"), BT("\x09\x01\x41"), BT("\x09\x01\x42"), BT("\x09\x03\x03\x31\x2c"), BT("\x09\x02\x83\x00"), BT("\x09\x02\x80\x80"), BT("\x06\x01\x80"), BT("\x06\x02\x2a\x86"), BT("\x0d\x01\xff"), BT("\x30\x80"), BT("\x31\x80"), BT("\xa0\x80"), BT("\x04\x81\x00"), BT("\x04\x84\x00\x00\x00\x01\x41"), BT("\x81\x01"), BT("\x88\x7f\xff\xff\xff\xff\xff\xff\xff"), BT("\xc1"), BT("\xc4"), BT("\xbf\xff"), BT("\x40"), BT("\x3f"),
+                                        // REAL contents in rare binary forms: explicit exponent length octet, 1-4 exponent octets, bases 2 / 8 / 16, scale factors, extreme exponents
+                                        BT("\xA3\x03\x20\x00\x00\x00\x01"), BT("\x8F\x03\x7f\xff\xff\xfd\x01"), BT("\x93\x03\x30\x00\x00\x00\x01"), BT("\x83\x02\x00\x00\x05\x03"),
+                                        BT("\x09\x07\xA3\x03\x20\x00\x00\x00\x01"), BT("\x07\xA3\x03\x20\x00\x00\x00\x01"), BT("\x82\x7f\xff\xff\x01"), BT("\xA2\x7f\xff\xff\x0f")};
 
 // PER fragmentation (X.691 11.9): a field of 16K units or more travels as [0xC0+m][m x 16K units] ... [final length][rest]. Encoders
 // send the largest fragments first; any other partition of the same contents is just as valid. This finds such a chain of octet
